@@ -2,6 +2,7 @@
 import XrayModel.LazyInt
 import XrayModel.IntBuiltins
 import XrayModel.IntText
+import XrayModel.IntLib
 open XrayModel
 namespace XrayDriver
 
@@ -86,6 +87,27 @@ def intTextEngine (f : String) (args : List String) : Option String :=
     some (showXS (IntB.format (LB.ofInt v) sp))
   | _, _ => none
 
+def showOptInt : Option Int → String
+  | some v => showLB (LB.ofInt v)
+  | none => "panic:fuel"
+
+def showOptRes : Option Lib.Res → String
+  | some (.ok v) => showLB (LB.ofInt v)
+  | some (.error e) => "err " ++ e
+  | none => "panic:fuel"
+
+/-- the hand model of the xray-written library functions (`XrayModel/IntLib.lean`) -/
+def intLibEngine (f : String) (vs : List Int) : Option String :=
+  match f, vs with
+  | "lib.abs", [a] => some (showLB (LB.ofInt (Lib.abs a)))
+  | "lib.sign", [a] => some (showLB (LB.ofInt (Lib.sign a)))
+  | "lib.gcd", [a, b] => some (showOptInt (Lib.gcd a b))
+  | "lib.lcm", [a, b] => some (showOptInt (Lib.lcm a b))
+  | "lib.factorial", [n, st] => some (showOptRes (some (Lib.factorial n st)))
+  | "lib.floor_root", [a, b] => some (showOptRes (Lib.floorRoot a b))
+  | "lib.ceil_root", [a, b] => some (showOptRes (Lib.ceilRoot a b))
+  | _, _ => none
+
 def intEngine (f : String) (args : List String) : String :=
   match intTextEngine f args with
   | some r => r
@@ -93,6 +115,9 @@ def intEngine (f : String) (args : List String) : String :=
   match args.mapM String.toInt? with
   | none => "bad-op"
   | some vs =>
+    match intLibEngine f vs with
+    | some r => r
+    | none =>
     let lb := vs.map LB.ofInt
     match f, lb with
     | "id", [a] => showLB a
